@@ -656,9 +656,84 @@ def make_shims(world):
         r = a[(slice(None),) * ax + (slice(i, i + 1) if i != -1 else slice(i, None),)]
         return r if keepdims else A.squeeze(r, ax)
 
+    def lax_pad(operand, padding_value, padding_config):
+        """lax.pad with (low, high, interior) per axis; negative low / high crop."""
+        a = as_arr(operand)
+        if len(padding_config) != a.ndim:
+            raise AbstractError("lax.pad: one (low, high, interior) triple per axis is required")
+        out = a
+        for ax, cfg3 in enumerate(padding_config):
+            lo, hi, interior = (A._as_int(v) for v in cfg3)
+            if interior < 0:
+                raise AbstractError("lax.pad: negative interior padding")
+            n = out.shape[ax]
+            if interior and n > 1:
+                pieces = []
+                for i in range(n):
+                    pieces.append(A.take(out, [i], ax))
+                    if i < n - 1:
+                        pieces.append(A.full(out.shape[:ax] + (interior,) + out.shape[ax + 1:], padding_value))
+                out = A.concatenate(pieces, ax)
+            pw = [(0, 0)] * out.ndim
+            pw[ax] = (max(lo, 0), max(hi, 0))
+            out = A.pad(out, tuple(pw), mode="constant", constant_values=padding_value)
+            if lo < 0 or hi < 0:
+                m = out.shape[ax]
+                out = out[(slice(None),) * ax + (slice(-lo if lo < 0 else 0, m + hi if hi < 0 else m),)]
+        return out
+
+    def lax_fori_loop(lower, upper, body_fun, init_val, **k):
+        lo, hi = A._as_int(lower), A._as_int(upper)
+        val = init_val
+        for i in range(lo, hi):
+            val = body_fun(i, val)
+        return val
+
+    def lax_scan(f, init, xs=None, length=None, reverse=False, **k):
+        if xs is None:
+            n = A._as_int(length)
+            items = [None] * n
+        else:
+            leaves = tree_leaves(xs)
+            if not leaves:
+                raise Unsupported("lax.scan over a pytree without array leaves")
+            n = leaves[0].shape[0]
+            items = [tree_map(lambda a, i=i: a[i], xs) for i in range(n)]
+        order = list(range(n))[::-1] if reverse else list(range(n))
+        carry, ys = init, [None] * n
+        for i in order:
+            carry, y = f(carry, items[i])
+            ys[i] = y
+        if n and ys[0] is not None:
+            ys = tree_map_multi(lambda *zs: A.stack(list(zs), 0), ys)
+        else:
+            ys = None
+        return carry, ys
+
+    def lax_cond(pred, true_fun, false_fun, *operands, **k):
+        p = as_arr(pred) if isinstance(pred, Arr) else pred
+        if isinstance(p, Arr):
+            if not p.is_concrete():
+                raise Unsupported("lax.cond on a data-dependent predicate")
+            p = bool(p.elems[0])
+        return true_fun(*operands) if p else false_fun(*operands)
+
     lax = NS(
         "jax.lax",
         stop_gradient=stop_gradient,
+        pad=lax_pad,
+        rev=lambda operand, dimensions: A.flip(operand, tuple(dimensions)),
+        transpose=lambda operand, permutation: A.transpose(operand, tuple(permutation)),
+        reshape=lambda operand, new_sizes, dimensions=None: A.reshape(operand, tuple(new_sizes)),
+        concatenate=lambda operands, dimension: A.concatenate(list(operands), dimension),
+        expand_dims=lambda operand, dimensions: functools.reduce(lambda a, d: A.expand_dims(a, d), sorted(dimensions), as_arr(operand)),
+        squeeze=lambda operand, dimensions: A.squeeze(operand, tuple(dimensions)),
+        select=lambda pred, on_true, on_false: A.where(pred, on_true, on_false),
+        fori_loop=lax_fori_loop,
+        scan=lax_scan,
+        cond=lax_cond,
+        conv=lambda lhs, rhs, window_strides, padding, **k: conv_general_dilated(W, lhs, rhs, window_strides, padding),
+        conv_with_general_padding=lambda lhs, rhs, window_strides, padding, lhs_dilation=None, rhs_dilation=None, **k: conv_general_dilated(W, lhs, rhs, window_strides, padding, lhs_dilation, rhs_dilation),
         slice_in_dim=lax_slice_in_dim,
         slice=lax_slice,
         dynamic_slice_in_dim=lax_dynamic_slice_in_dim,
@@ -795,10 +870,10 @@ def make_shims(world):
         vmap=vmap,
         devices=devices,
         tree_util=tree_util,
+        tree=NS("jax.tree", map=tree_map_fn, leaves=tree_leaves_fn, flatten=lambda t, **k: (tree_leaves(t), ("treedef", t))),
         Array=ArrayType("jax.Array"),
         Device=object,
         typing=NS("jax.typing", ArrayLike=object),
-        tree=NS("jax.tree", map=tree_map_fn, leaves=tree_leaves_fn),
     )
 
     # ------------------------------------------------------------------ equinox
